@@ -66,6 +66,10 @@ func cmdGen(args []string) {
 			b = g.behC18()
 		case "C11":
 			b = g.behC11()
+		case "C04J":
+			b = M{"kind": g.pick("fresh", "session", "session", "mutate", "mutate", "bomb", "bomb", "copybin", "copybin", "helpers"), "i": i}
+		case "C04F":
+			b = g.behC04F()
 		default:
 			if fn, ok := genFns[*prop]; ok {
 				b = fn(g)
@@ -1114,5 +1118,32 @@ func (g *gen) behC11() M {
 		steps = append([]any{send(M{"t": "SSLRequest", "stuffed": g.chance(0.3)}), M{"k": "tls"}}, steps...)
 	}
 	b["steps"] = steps
+	return b
+}
+
+// behC04F: a valid session with the transport starting to fail at the k-th
+// read, the k-th write or after n bytes.
+func (g *gen) behC04F() M {
+	var b M
+	switch g.rng.Intn(3) {
+	case 0:
+		b = g.behC05()
+	case 1:
+		b = g.behC06()
+	default:
+		b = g.behC13()
+	}
+	steps := b["steps"].([]any)
+	for _, sv := range steps {
+		delete(run.AsM(sv), "nowait")
+	}
+	pos := g.rng.Intn(len(steps) + 1)
+	fault := M{"k": "fault", "on": g.pick("read", "write", "bytes"), "after": g.rng.Intn(12)}
+	if fault["on"] == "bytes" {
+		fault["after"] = g.rng.Intn(200)
+	}
+	steps = append(steps[:pos:pos], append([]any{fault}, steps[pos:]...)...)
+	b["steps"] = steps
+	b["probe"] = true
 	return b
 }
